@@ -725,6 +725,17 @@ package kafka
 //@   callsite (*Client).Produce requires typeis($2.Records, "*kafka.writerRecords") && deref($2.Records, "writerRecords").index == 0
 //@   callsite (*Client).Produce requires same(deref($2.Records, "writerRecords").msgs, batch.msgs)
 
+//@ property C05 C01
+// The record reader of a produce request hands out message i as a record whose key (value) is NULL exactly when the
+// message's Key (Value) is nil: the record is rebuilt for every message, so nothing of the previous record survives
+// (C05: null keys and values are encoded as null and empty ones as empty).
+//@ func (*writerRecords).ReadRecord
+//@   option noframe
+//@   modifies heap
+//@   requires r != nil
+//@   ensures old(r.index >= 0 && r.index < len(r.msgs)) ==> isnil(result1) && r.index == old(r.index) + 1 && isnil(r.record.Key) == (old(r.msgs[r.index].Key) == nil) && isnil(r.record.Value) == (old(r.msgs[r.index].Value) == nil)
+//@   ensures !old(r.index >= 0 && r.index < len(r.msgs)) ==> result0 == nil && !isnil(result1) && r.index == old(r.index)
+
 //@ property C17 C02 C11 C06
 
 // ---- legacy stream readers (read.go, discard.go): budget accounting ----
